@@ -75,7 +75,8 @@ def main():
         args.json,
     )
 
-    if len(list(filter(None, [file, cmd, mod, eval_]))) != 1:
+    # Compare to None, since an empty string is a valid program
+    if len([s for s in [file, cmd, mod, eval_] if s is not None]) != 1:
         parser.error("Must specify exactly one of file, cmd, eval, or mod")
 
     console = Console()
